@@ -469,17 +469,23 @@ def setup():
     run_lockstep("quick", int(os.environ.get("VERIF_SEED", "1") or 1))
 
 
-def extension_ops(prefix_ops, arenas):
+def extension_ops(prefix_ops, arenas, variant=0):
     """Ops appended to a diverging prefix when searching for a concrete failing input: leave the
     callback, finish the cycle twice, dereference what is reachable, query weak pointers, drop."""
     ops = []
     depth = 0
+    cbkind = None
     for o in prefix_ops:
         t = o.split()
         if t and t[0] == "begin":
             depth = 1
+            cbkind = t[2] if len(t) > 2 else None
         elif t and t[0] in ("end", "enderr", "panic"):
             depth = 0
+    if depth and variant == 1:
+        # the callback stores a fresh object into the root (where the callback kind allows it) and then PANICS
+        ops += ["m alloc 5 node 1 0", "m rootset 0 5", "m alloc 4 leaf 0 0", "m rootset 1 4", "panic"]
+        depth = 0
     if depth:
         # complete the adoption that the diverging barrier was meant to license
         t = prefix_ops[-1].split() if prefix_ops else []
@@ -489,6 +495,24 @@ def extension_ops(prefix_ops, arenas):
         if len(t) >= 4 and t[0] == "m" and t[1] in ("barbw", "barfw") and t[2] != "-":
             for sl in range(3):
                 ops.append("m rawstorew %s %d %s" % (t[2], sl, t[3]))
+        # a child-only forward barrier licenses adoption by ANY parent, a parent-only backward barrier adoption
+        # of ANY child: try every register as the other side
+        if len(t) >= 4 and t[0] == "m" and t[1] == "barf" and t[2] == "-":
+            for preg in range(6):
+                if str(preg) != t[3]:
+                    ops.append("m rawstore %d %d %s" % (preg, preg % 2, t[3]))
+            # ... in particular by the (possibly already traced) objects held by the root and their children
+            spare = [r for r in range(6) if str(r) != t[3]][-2:]
+            for i in range(4):
+                ops += ["m loadroot %d %d" % (spare[0], i), "m rawstore %d 0 %s" % (spare[0], t[3]),
+                        "m load %d %d 1" % (spare[1], spare[0]), "m rawstore %d 0 %s" % (spare[1], t[3])]
+        if len(t) >= 4 and t[0] == "m" and t[1] == "barfw" and t[2] == "-":
+            for preg in range(6):
+                ops.append("m rawstorew %d %d %s" % (preg, preg % 2, t[3]))
+        if len(t) >= 4 and t[0] == "m" and t[1] == "barb" and t[3] == "-":
+            for creg in range(6):
+                if str(creg) != t[2]:
+                    ops.append("m rawstore %s %d %d" % (t[2], creg % 3, creg))
         ops.append("end")
     for a in arenas:
         ops += ["collect %d fc" % a, "collect %d fc" % a, "begin %d mutate" % a]
@@ -504,6 +528,7 @@ def extension_ops(prefix_ops, arenas):
 # a concrete failure of one of these, on the extension of a trace where this property's tie broke,
 # is a failure of this property (e.g. an adopted child destructed while reachable breaks C06)
 RELATED = {
+    "C05": ("C05", "C01"),
     "C06": ("C06", "C01", "C05"),
     "C14": ("C14", "C01"),
     "C11": ("C11", "C01", "C02", "C03", "C04", "C05", "C10"),
@@ -514,7 +539,7 @@ RELATED = {
 }
 
 
-def search_failing_input(pid, divergences, budget=8):
+def search_failing_input(pid, divergences, budget=40):
     """For the first few divergences relevant to pid: extend the diverging prefix and run the
     property oracles on the implementation. Returns a list of violation dicts (possibly empty)."""
     found = []
@@ -536,22 +561,28 @@ def search_failing_input(pid, divergences, budget=8):
                 alive.add(int(t[1]))
             if t[0] == "droparena":
                 alive.discard(int(t[1]))
-        script = prefix + extension_ops(prefix, sorted(alive))
-        rc, itext = vlib.run([hbin, "run"], input="#script ext\n" + "\n".join(script) + "\n", timeout=300)
-        itext = clean_trace(itext)
-        if rc != 0:
-            found.append({"property": pid, "key": None, "desc": "the implementation crashed (exit %d) on the extended diverging script" % rc,
-                          "script": d["script"], "line": len(script) - 1, "script_text": "\n".join(script)})
-            continue
-        rc2, mtext = vlib.run([drv], input=itext, timeout=300)
-        si, sm = lockstep.parse_trace(itext), lockstep.parse_trace(mtext)
-        for a, b in zip(si, sm):
-            def viol(prop, fkey, desc, k, _a=a):
-                if prop in RELATED.get(pid, (pid,)) and len(found) < 3:
-                    found.append({"property": pid, "key": fkey, "desc": desc + (" [observed through the %s oracle]" % prop if prop != pid else ""),
-                                  "script": d["script"] + "+ext", "line": k,
-                                  "script_text": "\n".join(l.optext for l in _a["lines"][:k + 1])})
-            lockstep.run_oracles(a, b, viol, Counter())
+        for variant in (0, 1):
+            if found:
+                break
+            script = prefix + extension_ops(prefix, sorted(alive), variant)
+            rc, itext = vlib.run([hbin, "run"], input="#script ext\n" + "\n".join(script) + "\n", timeout=300)
+            itext = clean_trace(itext)
+            if rc != 0:
+                found.append({"property": pid, "key": None, "desc": "the implementation crashed (exit %d) on the extended diverging script" % rc,
+                              "script": d["script"], "line": len(script) - 1, "script_text": "\n".join(script)})
+                continue
+            rc2, mtext = vlib.run([drv], input=itext, timeout=300)
+            si, sm = lockstep.parse_trace(itext), lockstep.parse_trace(mtext)
+            for a, b in zip(si, sm):
+                def viol(prop, fkey, desc, k, _a=a):
+                    # a recorded known finding (fkey set, e.g. F4) observed on the extension is not evidence about pid
+                    if fkey is not None and prop != pid:
+                        return
+                    if prop in RELATED.get(pid, (pid,)) and len(found) < 3:
+                        found.append({"property": pid, "key": fkey, "desc": desc + (" [observed through the %s oracle]" % prop if prop != pid else ""),
+                                      "script": d["script"] + "+ext", "line": k,
+                                      "script_text": "\n".join(l.optext for l in _a["lines"][:k + 1])})
+                lockstep.run_oracles(a, b, viol, Counter())
         if found:
             break
     return found
